@@ -58,19 +58,58 @@ func csvWrite(cs *csvCase) string {
 }
 
 func c09Exec(c *mon.Case) {
+	if strings.HasPrefix(c.Payload, "[") {
+		// reconfiguration: one tokenizer, two configurations in a row; the caller re-uses its own slices
+		var css []csvCase
+		json.Unmarshal([]byte(c.Payload), &css)
+		t := csv.NewCsvTokenizer()
+		var seps, quotes []rune
+		for i := range css {
+			ns, nq := []rune(css[i].Cfg.Seps), []rune(css[i].Cfg.Quotes)
+			if p := mon.Try(func() {
+				t.SetQuoteSymbols([]rune{0x7f})
+				if len(ns) == len(seps) {
+					copy(seps, ns) // edit the caller's buffer in place and hand it over again
+				} else {
+					seps = ns
+				}
+				t.SetFieldSeparators(seps)
+				if len(nq) == len(quotes) {
+					copy(quotes, nq)
+				} else {
+					quotes = nq
+				}
+				t.SetQuoteSymbols(quotes)
+			}); p != nil {
+				c.FailPanic("CSV tokenizer reconfiguration", p)
+				return
+			}
+			if !c09Check(c, &css[i], t, fmt.Sprintf(" (configuration #%d on a reconfigured tokenizer)", i+1)) {
+				return
+			}
+		}
+		return
+	}
 	var cs csvCase
 	json.Unmarshal([]byte(c.Payload), &cs)
+	c09Check(c, &cs, nil, "")
+}
+
+func c09Check(c *mon.Case, csp *csvCase, t *csv.CsvTokenizer, ctx string) bool {
+	cs := *csp
 	text := csvWrite(&cs)
 	if text == "" {
 		c.Unspecified("table whose text is empty")
-		return
+		return true
 	}
 	var toks []tok
 	p := mon.Try(func() {
-		t := csv.NewCsvTokenizer()
-		t.SetQuoteSymbols([]rune{0x7f}) // free the default quote before installing separators
-		t.SetFieldSeparators([]rune(cs.Cfg.Seps))
-		t.SetQuoteSymbols([]rune(cs.Cfg.Quotes))
+		if t == nil {
+			t = csv.NewCsvTokenizer()
+			t.SetQuoteSymbols([]rune{0x7f}) // free the default quote before installing separators
+			t.SetFieldSeparators([]rune(cs.Cfg.Seps))
+			t.SetQuoteSymbols([]rune(cs.Cfg.Quotes))
+		}
 		setOptions(t, optDecodeStrings)
 		toks = tokenizeAll(t, text)
 	})
@@ -80,7 +119,7 @@ func c09Exec(c *mon.Case) {
 		} else {
 			c.FailPanic("CSV tokenizer", p)
 		}
-		return
+		return false
 	}
 	var rows [][]string
 	row := []string{}
@@ -120,16 +159,17 @@ func c09Exec(c *mon.Case) {
 		if len(text) != len([]rune(text)) {
 			cls = " (non-ASCII text)"
 		}
-		c.Failf("CSV round trip does not recover the table"+cls, "separators=%q quotes=%q line end=%q\ntable %q\ntext  %q\ntokens %s\nrows  %q", cs.Cfg.Seps, cs.Cfg.Quotes, cs.Cfg.Eol, cs.Table, text, toksString(toks), rows)
-		return
+		c.Failf("CSV round trip does not recover the table"+cls+ctx, "separators=%q quotes=%q line end=%q\ntable %q\ntext  %q\ntokens %s\nrows  %q", cs.Cfg.Seps, cs.Cfg.Quotes, cs.Cfg.Eol, cs.Table, text, toksString(toks), rows)
+		return false
 	}
 	if eols != len(cs.Table)-1 {
 		c.Failf("a line ending is not exactly one end-of-line token", "line end=%q text=%q tokens %s", cs.Cfg.Eol, text, toksString(toks))
-		return
+		return false
 	}
 	if strings.ContainsAny(text, cs.Cfg.Quotes) {
 		c.NonTrivial()
 	}
+	return true
 }
 
 func buildC09(cfg *mon.Config) []*mon.Sub {
@@ -214,5 +254,36 @@ func buildC09(cfg *mon.Config) []*mon.Sub {
 		},
 		Exec: c09Exec,
 	}
-	return []*mon.Sub{exh, rnd}
+	recfg := &mon.Sub{
+		Name:  "reconfiguration",
+		Rule:  "one tokenizer is configured, used on a random table, then re-configured for another configuration (the caller edits its separator and quote slices in place when the lengths allow, as a get-modify-set would) and used on a second table; both round trips must hold; " + oracle,
+		Floor: 200,
+		Gen: func(emit func(string)) {
+			r := cfg.Rng("c09-reconfig")
+			cells := []string{"a", "b c", "", "x,y", "p;q", "say \"hi\"", "it's", "l1\nl2", "ш€", "1|2", "t\tab", "‖", "“q”"}
+			for i := 0; i < cfg.N(3000, 200000); i++ {
+				var css []csvCase
+				for k := 0; k < 2+r.Intn(2); k++ {
+					cc := mon.Pick(r, csvConfigs)
+					cc.Eol = mon.Pick(r, csvEols)
+					rows, cols := 1+r.Intn(3), 1+r.Intn(3)
+					tb := make([][]string, rows)
+					for ri := range tb {
+						tb[ri] = make([]string, cols)
+						for ci := range tb[ri] {
+							tb[ri][ci] = mon.Pick(r, cells)
+						}
+					}
+					if rows == 1 && cols == 1 && tb[0][0] == "" {
+						tb[0][0] = "z"
+					}
+					css = append(css, csvCase{Cfg: cc, Table: tb, Pick: r.Intn(50)})
+				}
+				b, _ := json.Marshal(css)
+				emit(string(b))
+			}
+		},
+		Exec: c09Exec,
+	}
+	return []*mon.Sub{exh, rnd, recfg}
 }
